@@ -215,6 +215,9 @@ let classify_m1 (st : mstate) (toks : string list) (model : string) (impl : stri
       else if o = "save" && starts_with "fl(viol,op=save," impl && (has "kind=reopenerr," || has "kind=reopenmixture,") then Some "C05-split-commit"
       else if o = "lvfo" && (has "kind=mixture)" || has "kind=loaderr)") then Some "C05-split-rollback"
       else None
+  | [ "x"; "laudit" ] when starts_with "la(" impl
+                          && (let has x = (try ignore (Str.search_forward (Str.regexp_string x) impl 0); true with Not_found -> false) in
+                              has "dangling=0" && has "bad=0" && not (has "garbage=0")) -> Some "C16-legacy-garbage"
   | "x" :: ("export" | "liveexport") :: _ when starts_with "loadversion:" impl -> Some "C20-export-db-unreadable"
   | "x" :: ("snap" | "livesnap") :: _ when starts_with "savesnapshot-err:cannot_leafWrite_nil_node" impl -> Some "C20-empty-snapshot"
   | [ "avail" ] ->
